@@ -70,6 +70,10 @@ def csv_row(r):
         row['operating'] = 'N'
     elif sk == 'equipment_BUS':
         row['genacft'] = 'BUS'
+    elif sk == 'service_blank':
+        row['service'] = ''
+    elif sk == 'specific_code_BUS':
+        row['inpacft'] = 'BUS'
     elif sk == 'unknown_airport':
         row['depapt'] = 'QQQ'
     return row
@@ -115,7 +119,7 @@ def run_case(case):
         after = cur.execute('SELECT COALESCE(MAX(id), 0) FROM flights').fetchone()[0]
         imported = bool(ok) and after > before
         if imported != bool(case['imported']):
-            if r['skip'] == 'none' and r['pct']:
+            if r['skip'] in ('none', 'service_blank', 'specific_code_BUS') and r['pct']:
                 # is the decision the one the rule makes with latitude and longitude exchanged?
                 a, b = airport(r['o']), airport(r['d'])
                 sw = GEOD.inv(a.latitude, a.longitude, b.latitude, b.longitude)[2] / 1000.0
@@ -124,7 +128,7 @@ def run_case(case):
                 if sw_ok == imported:
                     return [('distance-rule:latlon-swapped', f'{label}: {"imported" if imported else "dropped"}; specification: {"imported" if case["imported"] else "skipped"}; the decision is the one the rule makes with the geodesic evaluated on (lat, lon) instead of (lon, lat): {sw:.1f} km instead of {gc:.1f} km')]
             if imported:
-                why = 'implausible distance' if r['skip'] == 'none' else r['skip']
+                why = 'implausible distance' if r['skip'] in ('none', 'service_blank', 'specific_code_BUS') else r['skip']
                 devs.append((f'row-not-skipped:{why.replace(" ", "-")}', f'{label}: imported; specification: skipped ({why})'))
             else:
                 w = d.warnings.get(line)
